@@ -18,6 +18,7 @@ func init() {
 	env.Register("C13_Worker", C13_Worker)
 	env.Register("C14_Sync", C14_Sync)
 	env.Register("C14_MainLoop", C14_MainLoop)
+	env.Register("C13_CommitThenPrepared", C13_CommitThenPrepared)
 }
 
 type c13Obs struct {
@@ -54,6 +55,7 @@ func (o *c13Obs) observe() {
 		}
 	}
 	o.nCommits = len(n.commits)
+	o.wd.checkHeightIsAnnouncedRound()
 }
 
 // honestRound delivers a full honest round for the node's current height (proposal by leader 0 unless the
@@ -324,6 +326,20 @@ func C14_SyncDuringCommit() {
 	env.Assert("C14.setup.committed", len(n.commits) == 1)
 	env.Assert("C14.setup.mainloop_parked", parked == 2)
 	env.Assert("C15.commit_ctx_released_by_sync", ctxSeen)
+	// the window before the worker takes the queued sync: the state's height (which the filter uses to route
+	// messages to the current term) is the height of the last announced round, and a message of the next height
+	// that arrives now is not handled by the term of height 1
+	wd.checkHeightIsAnnouncedRound()
+	ev0 := len(n.st.Events)
+	net2 := newVNet(wd.reg, wd.net.committee, vInstance, n.commits[0].proof)
+	if me != 0 {
+		n.deliver(net2.ppm(0, 2, 0, &stub.Block{H: 2, Tag: 0x23, ProposalOK: true}).ToConsensusRawMessage())
+	}
+	n.deliver(net2.pm(3, 2, 0, primitives.BlockHash{0x23}).ToConsensusRawMessage())
+	last := n.rounds[len(n.rounds)-1].height
+	for _, e := range n.st.Events[ev0:] {
+		env.Assert("C17.only_own_height", e.Msg.BlockHeight() == last)
+	}
 	// the worker loop now takes the pending sync from its channel
 	if env.ChanBuffered(n.m.worker.workerUpdateStateChannel) == 1 {
 		msg := <-n.m.worker.workerUpdateStateChannel
@@ -339,4 +355,70 @@ func C14_SyncDuringCommit() {
 		env.Assert("C14.no_round_between", env.Or(r.height <= 1, uint64(r.height) == b+1))
 	}
 	env.Reach("C14.sync_during_commit")
+}
+
+// checkHeightIsAnnouncedRound: the node's state height is the height of the round it announced last (the term it
+// is running); a state that moved on without a term would make the height filter hand messages to the wrong term.
+func (wd *vWorld) checkHeightIsAnnouncedRound() {
+	n := wd.n
+	if len(n.rounds) == 0 {
+		return
+	}
+	last := n.rounds[len(n.rounds)-1].height
+	env.Assert("C13.state_height_is_announced_round", n.m.state.Height() == last)
+	env.Assert("C17.state_height_is_term_height", n.m.state.Height() == last)
+}
+
+// C13_CommitThenPrepared: the term survives its own commit (the commit callback fails, so no next round starts).
+// COMMITs of view 1 for the same block arrived early (honest reordering: peers that already moved on) and are
+// stored. After the commit in view 0 the node times out, adopts the honest locked NEW_VIEW of view 1 and becomes
+// prepared there, optionally receiving the view-1 COMMITs only now. However the pieces are ordered, the height is
+// handed to the commit callback once.
+func C13_CommitThenPrepared() {
+	me := env.Param("me") // 2 or 3 (follower in views 0 and 1)
+	wd := newWorld(me, paramWeights())
+	n, net := wd.n, wd.net
+	n.commitErr = env.NondetBool("commit_callback_fails")
+	g := &stub.Block{H: 1, Tag: 0x21, ProposalOK: true}
+	hash := stub.HashOf(g)
+	early := env.NondetBool("view1_commits_arrive_early")
+	commits1 := func() {
+		for _, i := range othersOf(me) {
+			n.deliver(net.cm(i, 1, 1, hash).ToConsensusRawMessage())
+		}
+	}
+	n.deliver(net.ppm(0, 1, 0, g).ToConsensusRawMessage())
+	for _, i := range othersOf(0, me) {
+		n.deliver(net.pm(i, 1, 0, hash).ToConsensusRawMessage())
+	}
+	if early {
+		commits1()
+	}
+	for _, i := range othersOf(me) {
+		n.deliver(net.cm(i, 1, 0, hash).ToConsensusRawMessage())
+	}
+	env.Assert("C13.ctp.committed_in_view0", len(n.commits) == 1)
+	if n.m.state.Height() != 1 {
+		env.Reach("C13.ctp.moved_on")
+		return // the callback succeeded: the next round started, the old term is gone
+	}
+	n.timeout()
+	var votes []*interfaces.ViewChangeMessage
+	for _, i := range othersOf(me) {
+		votes = append(votes, net.vcm(i, 1, 1, net.prepared(1, 0, g, othersOf(0, i))))
+	}
+	n.deliver(net.nvm(1, 1, 1, votes, g).ToConsensusRawMessage())
+	for _, i := range othersOf(1, me) {
+		n.deliver(net.pm(i, 1, 1, hash).ToConsensusRawMessage())
+	}
+	if !early {
+		commits1()
+	}
+	env.Assert("C13.commit_once_per_round", len(n.commits) == 1)
+	for i := 1; i < len(n.commits); i++ {
+		env.Assert("C13.commit_cb_increasing", n.commits[i].block != nil && n.commits[i-1].block != nil && n.commits[i].block.H > n.commits[i-1].block.H)
+	}
+	if v, ok := wd.termPrepared(); ok && v == 1 {
+		env.Reach("C13.ctp.prepared_in_view1")
+	}
 }
